@@ -180,7 +180,7 @@ def _bs(ws): return b''.join(w.to_bytes(8, 'little') for w in ws)
 def block_cases(tier, rng, ops=('threefish.enc', 'threefish.dec')):
     """(key, tweak, block) triples, boundary-directed first"""
     out = []
-    nrand = 6 if tier == 'quick' else 60
+    nrand = 6 if tier == 'quick' else 1500
     for n in (32, 64, 128):
         nw = n // 8
         z, o = b'\0' * n, b'\xff' * n
@@ -197,7 +197,7 @@ def block_cases(tier, rng, ops=('threefish.enc', 'threefish.dec')):
             w = [rng.getrandbits(64) for _ in range(nw)]; w[i] = M64
             out.append((_bs(w), os_(rng, 16), os_(rng, n), 'ones-word'))
         # single-bit keys / tweaks / blocks, and one-bit differences from a random base
-        bits_k = sorted({0, 7, 8, 63, 64, 8 * n - 1} | {rng.randrange(8 * n) for _ in range(2 if tier == 'quick' else 12)})
+        bits_k = sorted({0, 7, 8, 63, 64, 8 * n - 1} | {rng.randrange(8 * n) for _ in range(2 if tier == 'quick' else 8 * n)})
         bk, bt_, bb = os_(rng, n), os_(rng, 16), os_(rng, n)
         for i in bits_k:
             out.append((onebit(n, i), tz, z, 'single-bit'))
@@ -259,7 +259,7 @@ def cases(tier, rng):
         for d in list(range(8)) + [8, 13, 71, 79]:
             for j in range(nw // 2):
                 ws = [(0, 0), (M64, M64), (1, 1 << 63), (M64, 1), (rng.getrandbits(64), rng.getrandbits(64))]
-                if tier != 'quick': ws += [(rng.getrandbits(64), rng.getrandbits(64)) for _ in range(4)]
+                if tier != 'quick': ws += [(rng.getrandbits(64), rng.getrandbits(64)) for _ in range(20)]
                 for x0, x1 in ws:
                     yield 'threefish.mix %d %d %d %d %d' % (nw, x0, x1, d, j), 'threefish.mix'
                     yield 'threefish.mixinv %d %d %d %d %d' % (nw, x0, x1, d, j), 'threefish.mixinv'
